@@ -132,6 +132,11 @@ def _judge(res: CaseResult, tagp: str, case: Dict[str, Any], r: Dict[str, Any], 
                 res.viol("order-subgraph", f"[{tagp}] sub-graph execution order {r['orderx']} != predicted tie-free prefix {pred}")
 
 
+def gen_prio(P: Dict[str, Any], site: str) -> int:
+    st_ = [b for b in P["body"] if b["site"] == site][0]
+    return int(P["fns"][st_["fn"]].get("prio", 0))
+
+
 def run_case(case: Dict[str, Any]) -> CaseResult:
     res = CaseResult()
     P = case["prog"]
@@ -145,7 +150,7 @@ def run_case(case: Dict[str, Any]) -> CaseResult:
         if "error" in r:
             res.viol("internal-error", f"{k}: building/running the DAG raised {r['error']}")
             return res
-    tables = ("t0", "t1", "tx", "insel", "sel_error", "t_end", "tc")
+    tables = ("t0", "t1", "tx", "insel", "sel_error", "t_end", "tc", "prio_shown", "reconf_raised")
     for k, r in replies.items():
         diff = [f for f in tables if r.get(f) != base.get(f)]
         if diff:
@@ -153,6 +158,13 @@ def run_case(case: Dict[str, Any]) -> CaseResult:
             break
     exp0 = gen.compound_priority(P)
     exp = gen.compound_priority(P, case["reconf"]) if case.get("reconf") is not None else exp0
+    if "prio_shown" in base:
+        # a configuration with an unusable entry: refused or not, the table follows the priorities the API shows now
+        shown = base["prio_shown"]
+        if any(not isinstance(v, int) or isinstance(v, bool) for v in shown.values()):
+            res.skipped = "unusable-priority-stored"
+            return res
+        exp = gen.compound_priority(P, shown)
     for k, r in replies.items():
         _judge(res, k, case, r, exp0, exp)
     cls = ["plain"]
@@ -166,6 +178,14 @@ def run_case(case: Dict[str, Any]) -> CaseResult:
     if case.get("reconf") is not None:
         cls.append("reconf")
         cls.append("reconf-via-" + case.get("reconf_via", "dict"))
+        if case.get("reconf_bad") is not None:
+            cls.append("reconf-with-unusable-entry")
+            if base.get("reconf_raised") and any(base["prio_shown"].get(s_) != gen_prio(P, s_) for s_ in base["prio_shown"]):
+                cls.append("reconf-refused-after-changing-nodes")
+        if "reconf_bad_mc" in case:
+            cls.append("reconf-with-unusable-max-concurrency")
+        if case.get("sel_early"):
+            cls.append("same-selection-before-reconf")
     if case.get("final_ops"):
         cls.append("table-reread-after-setup-ops")
     if "tc" in base:
@@ -202,6 +222,13 @@ def cases(draw: Any) -> Dict[str, Any]:
         some = draw(st.lists(st.sampled_from(sites), min_size=1, max_size=len(sites), unique=True))
         case["reconf"] = {s: draw(st.integers(-4, 9)) for s in some}
         case["reconf_via"] = draw(st.sampled_from(["dict", "dict", "yaml", "json"]))
+        rest_ = [s for s in sites if s not in some]
+        if rest_ and gen.chance(draw, 0.2):
+            # fault at a point: one entry is unusable (its position among the entries is drawn)
+            case["reconf_bad"] = {"site": draw(st.sampled_from(rest_)), "pos": draw(st.integers(0, len(some))),
+                                  "value": draw(st.sampled_from(["x", 1.5, None]))}
+        if gen.chance(draw, 0.1):
+            case["reconf_bad_mc"] = draw(st.sampled_from([0, -1, "2", 2.5]))
     if "sel" in mode:
         kind = draw(st.sampled_from(["T", "X", "R"]))
         deps = gen.deps_of(P)
@@ -216,6 +243,8 @@ def cases(draw: Any) -> Dict[str, Any]:
         if kind == "X":
             case["sel"] = {"X": draw(st.lists(st.sampled_from(sites), min_size=1, max_size=max(1, len(sites) - 1), unique=True))}
         del deps
+        if "reconf" in mode and draw(st.booleans()):
+            case["sel_early"] = True  # history: executor(sel) - reconfiguration - executor(sel) - run
     if len(sites) >= 3 and draw(st.sampled_from([True, False, False, False])):
         k = draw(st.integers(0, 2))
         ins = draw(st.lists(st.sampled_from(sites), min_size=k, max_size=k, unique=True))
